@@ -11,6 +11,7 @@ import (
 	context_manager "lunar/toolkit-core/context-manager"
 	"lunar/toolkit-core/otel"
 	"lunar/toolkit-core/verifhook"
+	"sync"
 	"time"
 
 	lunar_metrics "lunar/engine/metrics"
@@ -53,6 +54,7 @@ type queueProcessor struct {
 	labelManager                *lunar_metrics.LabelManager
 	metaData                    *streamtypes.ProcessorMetaData
 	inDrainMode                 bool
+	slotMutex                   sync.Mutex
 }
 
 func NewProcessor(
@@ -377,6 +379,11 @@ func (p *queueProcessor) enqueueIfSlotAvailable(req *Request) bool {
 		Int64("MaxQueueSize", p.maxQueueSize).
 		Int64("MaxSharedQueueSize", p.maxRedisQueueSize).
 		Msgf("Checking if slot available")
+
+	// The size check and the registration must be one step, otherwise concurrent
+	// arrivals all pass the check before any of them is counted.
+	p.slotMutex.Lock()
+	defer p.slotMutex.Unlock()
 
 	localSize := p.requestsWatcher.GetCount()
 	if localSize >= p.maxQueueSize {
